@@ -3,7 +3,8 @@ import random
 import lib
 from props.common import *
 
-THEOREMS = ["C16_unknown_bits_refused", "C16_every_entry_point", "C16_clear_bits_accepted", "C16_header_accepted"]
+from props.theorems import THEOREMS as _T
+THEOREMS = _T['C16']
 
 
 def build(res):
